@@ -105,3 +105,27 @@ pub fn rank_support(l: usize, written: bool) {
     assert!(y.rank(i) == b.rank(i));
     if i < l { assert!(y.get(i) == b.bit(i)); }
 }
+
+/// Uniform vectors (all bits equal to `value`, concrete length): all three supports are built,
+/// written and LOADED (their sizes are concrete here), the loaded copy equals the original and
+/// answers select / select_zero / rank for a symbolic argument.
+pub fn uniform(l: usize, value: bool) {
+    let raw = simple_sds::raw_vector::RawVector::with_len(l, value);
+    let mut bv = BitVector::from(raw);
+    bv.enable_rank(); bv.enable_select(); bv.enable_select_zero();
+    let mut buf = [0x3Cu8; BUF];
+    let size = bv.size_in_bytes();
+    assert!(size <= BUF && size == 8 * bv.size_in_elements());
+    let left = { let mut w: &mut [u8] = &mut buf; bv.serialize(&mut w).unwrap(); w.len() };
+    assert!(BUF - left == size);
+    let mut r: &[u8] = &buf[..];
+    let y = BitVector::load(&mut r).unwrap();
+    assert!(BUF - r.len() == size);
+    assert!(y.supports_rank() && y.supports_select() && y.supports_select_zero());
+    assert!(y == bv);
+    let i = sym::usize();
+    let ones = if value { l } else { 0 };
+    assert!(y.rank(i) == if value { if i < l { i } else { l } } else { 0 });
+    assert!(y.select(i) == if i < ones { Some(i) } else { None });
+    assert!(y.select_zero(i) == if i < l - ones { Some(i) } else { None });
+}
